@@ -37,7 +37,13 @@ PROP = dict(
                            "monitor:template-type-compared": 3000, "monitor:builtin-compared": 5000, "monitor:traits-compared": 100000,
                            "monitor:name-to-id": 1000, "exhausted:generic": 20, "capacity:generic": 1792,
                            "library-type-query": 4000, "monitor:library-type-first-query": 300, "monitor:library-type-repeated-query": 3000,
-                           "library-name-taken-first": 200, "monitor:library-type-name-was-taken": 150, "refused:library-type": 50}),
+                           "library-name-taken-first": 300, "monitor:library-type-name-was-taken": 200, "refused:library-type": 200,
+                           "monitor:conversion-through-library-id": 300, "exhausted:metatype": 15, "exhausted:interface": 15,
+                           "site:metatype::generic::pointer_traits": 400, "site:metatype::basic::pointer_traits": 400,
+                           "site:layout::pointer_traits": 400, "site:layout::graph::pointer_traits": 400,
+                           "site:metatype::value<T>::pointer_traits": 800, "site:group::pointer_traits": 400,
+                           "site:io::interface::get_traits": 400, "site:type_properties<point<float>>::id": 400,
+                           "site:type_properties<point<double>>::id": 400}),
               dict(name="c06_libtypes", src=["c06_libtypes.c"], libs=["mptplot", "mptio", "mptcore"], batch=1,
                    env={"VF_ASAN_EXTRA": "detect_stack_use_after_return=1"},
                    floors={"mpt_color_typeid": 1500, "mpt_lattr_typeid": 1500, "mpt_line_typeid": 1500,
@@ -49,7 +55,8 @@ PROP = dict(
                            "harness-registration": 5000, "stack-work": 5000, "library-types-registered": 11,
                            "generic-range-filled": 20, "refused:library-registration": 2000,
                            "range-filled:basic": 80, "range-filled:generic": 80, "range-filled:interface": 80, "range-filled:metatype": 80,
-                           "monitor:library-after-exhaustion": 200})],
+                           "monitor:library-after-exhaustion": 200, "monitor:registry-growth-compared": 30000,
+                           "library-name-taken-first": 100})],
         rule=("case = one process running (a) a built-in sweep, (b) an exhaustion history or (c) a PRNG history of 40..420 operations "
               "(registrations of the four kinds with valid, too short, duplicate, anonymous names / valid and invalid traits; lookups by id "
               "and by name); non-trivial = (a), (b) always, (c) when >= 3 registrations of >= 2 kinds were accepted and >= 1 refused; "
